@@ -5,6 +5,8 @@ mod model;
 mod ops;
 mod props;
 mod seq;
+mod trace;
+mod crash;
 
 use env::Tier;
 
